@@ -152,7 +152,26 @@ def check_C01(ctx):
                              "FetchBlob origins are loopback httptest servers"])
 
 
-CHECKS = {"C01": check_C01, "C03": check_C03, "C04": check_C04, "C05": check_C05, "C07": check_C07}
+def check_C02(ctx):
+    th = ctx.thorough()
+    b = ctx.bin(GRID)
+    jobs = []
+    budget = 2400 if th else 200
+    for w in CONFIGS:
+        for r in CONFIGS:
+            jobs.append(Job(b, "TestC02", name="C02:%s->%s" % (w, r), timeout=budget + 120,
+                            env={"VERIF_PARAM_WRITER": w, "VERIF_PARAM_READER": r, "GOMAXPROCS": "4"}))
+    for r in CONFIGS:
+        jobs.append(Job(b, "TestC02Fmt2", name="C02fmt2:%s" % r, timeout=budget + 120, env={"VERIF_PARAM_READER": r, "GOMAXPROCS": "4"}))
+    jobs.append(Job(b, "TestC02Empty", name="C02empty", timeout=300))
+    return dict(level="exploration", jobs=jobs,
+                rule="(i) full product writer (mode,impl) x reader (mode,impl, restarted) x blob size on 4 KiB / k MiB edges x content kind x read path x offset class x read_limit class; (ii) files laid out by the independent format writer with 4/8 KiB chunks: every offset 0..n on both ByteStream paths; (iii) the empty blob on every path against an empty cache; non-trivial = distinct successful reads whose bytes were compared",
+                assumptions=["zstd responses are decoded with klauspost/compress and libzstd; both must agree",
+                             "in-process servers (httptest recorder / bufconn)",
+                             "contents: pseudo-random, zeros, repetitive text; sizes are boundary-chosen"])
+
+
+CHECKS = {"C01": check_C01, "C02": check_C02, "C03": check_C03, "C04": check_C04, "C05": check_C05, "C07": check_C07}
 
 # per-property manifest metadata
 META = {
@@ -162,6 +181,12 @@ META = {
         note="Finite grid (small-scope): sizes are boundary-chosen, contents are pseudo-random or mostly zero; client aborts are cancelled contexts / failing body readers.",
         technique="exhaustive enumeration of a finite input/configuration grid through the real entry points against an acceptance oracle",
         design_ref="DESIGN.md 2.5, 3 (C01)"),
+    "C02": dict(
+        category="exploration", engine="E4 grid",
+        text="Bounded-exhaustive grid over the real read handlers: blobs written under each (storage mode, zstd implementation) and read after a restart under each other configuration (16 pairs) through HTTP GET plain/zstd, BatchReadBlobs identity/zstd, ByteStream.Read blobs/ and compressed-blobs/zstd at offsets {0,1,chunk-1,chunk,chunk+1,2chunk,n-1,n} x read_limit {0,1,rest-1,rest,rest+1}, GetTree and inlined ActionResult fields; plus files produced by the harness's own v2 writer with 4/8 KiB chunks read at every offset 0..n; plus the empty blob on every path. Oracle: decoded bytes (two independent zstd decoders) == content[off:n], prefix property on errors, limit respected, size reported == n, reads of present blobs with off<n succeed.",
+        note="Finite grid; chunk-boundary arithmetic is exercised exhaustively on small-chunk files and at boundary offsets on 1 MiB-chunk files.",
+        technique="exhaustive enumeration of a finite input/configuration grid through the real entry points against a byte-exact oracle",
+        design_ref="DESIGN.md 2.5, 3 (C02)"),
     "C03": dict(
         category="model_checking", engine="E2 seqx + E1 vsched",
         text="Explicit-state search: BFS over all operation sequences (depth 4 quick / 6 thorough at LRU level over add/get/reserve/unreserve/remove/remover-step with block-edge sizes; depth 3 / 4 at cache level over good and failing uploads, lookups, overwrites and backend fetches) with every transition executed on the real code, the accounting equation, reserved==0 and Stats()==index checked in every state; plus every <=2/3-preemption schedule of three concurrent scenarios with the equation checked at every scheduling point.",
